@@ -2,6 +2,7 @@
    Property theorems only. Every theorem is closed by [exact] of a lemma proved elsewhere
    (Res/NameRefProofs.v, Res/RenameProofs.v, Res/C03Facts.v). *)
 From KV Require Import Res.BuildRefs Res.FsFacts Res.CsvFacts Res.NameRefProofs Res.RenameProofs Res.RewriteProofs Res.ProgressProofs Res.BuildProofs Res.C03Facts.
+From KV Require Import Res.Pipeline Res.PipelineRefsProofs.
 From KV Require Import Gen.NameRefRules Gen.FieldSpecs Res.NameRefRulesRef.
 
 (* ================= obligations over the tables regenerated from /repo ================= *)
@@ -268,7 +269,8 @@ Print Assumptions C03_refs_follow_closed.
 (* PROGRESS THROUGH THE WHOLE TRANSFORMER.  Full statement (DESIGN §5 C03_refs_follow) is build-level and
    refuted below; this is its proved part at the level of nameReferenceTransformer.Transform with the
    generated table, all rows, all referrers.  A scalar field of referrer r (not under a key "namespace",
-   not the roleRef/name field) that a row of the referent's kind reaches and that holds a text [old] such
+   a roleRef/name field only when nothing was ever called like the binding's roleRef apiGroup / kind)
+   that a row of the referent's kind reaches and that holds a text [old] such
    that, among the resources r may refer to (SubsetThatCouldBeReferencedByResource), exactly one candidate b
    ever had that name with the row's kind, b passing the namespace sieve, and such that in the WHOLE map
    everything ever called [old] is called like b now and so is everything ever called like b now (no
@@ -283,7 +285,9 @@ Theorem C03_refs_follow_transform_partial :
     forall i r r' org row fs flags cands b a t s old,
       nth_error m i = Some r -> nth_error m' i = Some r' -> org_id cs r = Ok org ->
       In row rules -> In fs (nb_referrers row) -> gvk_is_selected (id_gvk org) (fs_gvk fs) = true ->
-      has_suffix "roleRef/name" (fs_path fs) = false ->
+      roleref_sieve (make_ctx cs r (fs_path fs) (nb_gvk row)) b = true ->
+      (has_suffix "roleRef/name" (fs_path fs) = false \/
+       exists g, roleref_gvk (r_node r) = Some g /\ external C (g_group g) /\ external C (g_kind g)) ->
       referencable cs m r = Ok flags -> mapM (view cs) (select_by flags m) = Ok cands ->
       no_ns_key a -> reaches (path_splitter (fs_path fs)) a (r_node r) = true ->
       get_addr a (r_node r) = Some (Scalar t s old) -> is_null (Scalar t s old) = false ->
@@ -345,7 +349,9 @@ Theorem C03_refs_follow_build_partial :
     forall i r r' org row fs flags cands j pb b a t s,
       nth_error m i = Some r -> nth_error out i = Some r' -> org_id cs r = Ok org ->
       In row rules -> In fs (nb_referrers row) -> gvk_is_selected (id_gvk org) (fs_gvk fs) = true ->
-      has_suffix "roleRef/name" (fs_path fs) = false ->
+      roleref_sieve (make_ctx cs r (fs_path fs) (nb_gvk row)) b = true ->
+      (has_suffix "roleRef/name" (fs_path fs) = false \/
+       exists g, roleref_gvk (r_node r) = Some g /\ external C (g_group g) /\ external C (g_kind g)) ->
       referencable cs m r = Ok flags -> mapM (view cs) (select_by flags m) = Ok cands ->
       no_ns_key a -> reaches (path_splitter (fs_path fs)) a (r_node r) = true ->
       get_addr a (r_node r) = Some (Scalar t s (get_name (r_node (fst pb)))) ->
@@ -358,6 +364,51 @@ Theorem C03_refs_follow_build_partial :
       exists t' s', get_addr a (r_node r') = Some (Scalar t' s' (c_name b)).
 Proof. exact refs_follow_build. Qed.
 Print Assumptions C03_refs_follow_build_partial.
+
+(* THROUGH THE INTEGRATED BUILD (Res/Pipeline.v: krusty.Run with labels, annotations, generators,
+   namespace / prefix / suffix, hash, FixBackReferences, IgnoreLocal, legacy sort, RemoveBuildAnnotations).
+   Every emitted document is the stripped document of a resource exactly as FixBackReferences left it. *)
+Theorem C03_pipeline_outputs :
+  forall nonstr o t outs,
+    Pipeline.build nonstr o t = Ok outs ->
+    exists m1 m2 rules,
+      before_refs nonstr t = Ok m1 /\ pipe_rules = Ok rules /\
+      nameref_transform pipe_cs nonstr rules m1 = Ok m2 /\
+      forall n, In n outs -> exists r2, In r2 m2 /\ n = strip_node (r_node r2).
+Proof. exact build_outputs. Qed.
+Print Assumptions C03_pipeline_outputs.
+
+(* ... and the steps after FixBackReferences touch neither a reference field outside metadata nor a name:
+   under the hypotheses of C03_refs_follow_transform_partial on the map just before FixBackReferences
+   ([before_refs t = Ok m1]: accumulateTarget of the whole tree, then the hashes), the referrer's EMITTED
+   document holds, at the reference field, the metadata.name of the referent's EMITTED document.
+   Partial: the hypotheses are on m1, not yet on the tree (the layering lemma is proved for the rename
+   model only, see C03_refs_follow_build_partial). *)
+Theorem C03_refs_follow_pipeline_partial :
+  forall nonstr o t outs m1 m2 rules C,
+    Pipeline.build nonstr o t = Ok outs ->
+    before_refs nonstr t = Ok m1 -> pipe_rules = Ok rules ->
+    nameref_transform pipe_cs nonstr rules m1 = Ok m2 ->
+    mapM (view pipe_cs) m1 = Ok C -> no_empty_prev C = true ->
+    forall i r r' org row fs flags cands j b b2 a t0 s old,
+      nth_error m1 i = Some r -> nth_error m2 i = Some r' -> org_id pipe_cs r = Ok org ->
+      In row rules -> In fs (nb_referrers row) -> gvk_is_selected (id_gvk org) (fs_gvk fs) = true ->
+      roleref_sieve (make_ctx pipe_cs r (fs_path fs) (nb_gvk row)) b = true ->
+      (has_suffix "roleRef/name" (fs_path fs) = false \/
+       exists g, roleref_gvk (r_node r) = Some g /\ external C (g_group g) /\ external C (g_kind g)) ->
+      referencable pipe_cs m1 r = Ok flags -> mapM (view pipe_cs) (select_by flags m1) = Ok cands ->
+      no_ns_key a -> match a with AKey k :: _ => k <> "metadata" | _ => False end ->
+      reaches (path_splitter (fs_path fs)) a (r_node r) = true ->
+      get_addr a (r_node r) = Some (Scalar t0 s old) -> is_null (Scalar t0 s old) = false ->
+      nth_error C j = Some b -> nth_error m2 j = Some b2 ->
+      filter (name_kind_match (make_ctx pipe_cs r (fs_path fs) (nb_gvk row)) old) cands = [b] ->
+      namespace_sieve (make_ctx pipe_cs r (fs_path fs) (nb_gvk row)) b = true ->
+      (forall c, In c C -> prev_name_matches old c = true -> c_name c = c_name b) ->
+      (forall c, In c C -> prev_name_matches (c_name b) c = true -> c_name c = c_name b) ->
+      exists t' s',
+        get_addr a (strip_node (r_node r')) = Some (Scalar t' s' (get_name (strip_node (r_node b2)))).
+Proof. exact refs_follow_pipeline. Qed.
+Print Assumptions C03_refs_follow_pipeline_partial.
 
 (* ================= what the faithful model refutes (each confirmed on the implementation) ================= *)
 
